@@ -362,12 +362,18 @@ def _trace_sample(args):
             return local
         return None
 
+    import threading
+
+    # execute() runs every scenario on a fresh thread (fresh-stack rule), and
+    # sys.settrace covers the calling thread only
+    threading.settrace(glob)
     sys.settrace(glob)
     try:
         for index in range(n):
             mod.execute(mod.generate(master, index, tier))
     finally:
         sys.settrace(None)
+        threading.settrace(None)
     out = {}
     for f in files:
         path = os.path.join(base, f)
